@@ -98,6 +98,15 @@ func (cw *cliWorld) inject(k int, r *fsReq) {
 			return
 		}
 		cw.postBad = true
+		if bk := k - fBad0; bk != 6 {
+			// Garbage, an unknown tag, a wrong reply type: "the calls pending
+			// at that moment return an error".  The server has nothing more
+			// to say to them - a client that kept one waiting shows as a
+			// hang.  (An Rread whose count exceeds its payload is left out:
+			// whether a client can accept it is its own business.)
+			cw.rcx.Count("client.pending_at_bad_frame", len(f.pend))
+			f.pend = nil
+		}
 	}
 }
 
